@@ -367,15 +367,15 @@ def run_rule(chk, F, tier):
     sums = cx.loop_summaries(chk)
     # is_leap_year == the 4/100/400 rule on every year (same evaluation as C08.R2, repeated so that this rule stands alone)
     eng, D = cx.eng, cx.D
-    from .c08 import leap_cond
+    from .c08 import leap_pair
     finals, args = D.run(cx.ily)
     okl = True
     for st in finals:
         if st.end != "return" or not isinstance(st.ret, Bool):
             okl = False
             continue
-        want = leap_cond(eng, args[0].lin)
-        t_ok = bool(eng.assume(st.clone(), c_and(st.ret.c, c_not(want))))
+        want, nwant = leap_pair(eng, args[0].lin)
+        t_ok = bool(eng.assume(st.clone(), c_and(st.ret.c, nwant)))
         f_ok = bool(eng.assume(st.clone(), c_and(c_not(st.ret.c), want)))
         if t_ok or f_ok:
             okl = False
